@@ -109,7 +109,7 @@ pub fn run(case: &Sx, dir: &Path) -> Vec<Out> {
                     *r.pick(&[QKind::All, QKind::All, QKind::Count, QKind::Sorted])
                 };
                 ctl2.note(Role::Querier(n), "h:qstart", Some(format!("{} {}", inst, kind.name())));
-                let q = run_query(&rt, &db, kind, Duration::from_secs(8));
+                let q = run_query(&rt, &db, kind, Duration::from_secs(30));
                 ctl2.note(Role::Querier(n), "h:qdone", Some(inst.to_string()));
                 let bad = matches!(q, QRes::Hang | QRes::Panic(_));
                 res.lock().unwrap().push(((n, inst), kind, q));
@@ -122,7 +122,7 @@ pub fn run(case: &Sx, dir: &Path) -> Vec<Out> {
         }));
     }
     let t0 = Instant::now();
-    let budget = Duration::from_secs(40);
+    let budget = Duration::from_secs(150);
     for h in qhandles.iter_mut() {
         let left = budget.checked_sub(t0.elapsed()).unwrap_or(Duration::from_millis(1));
         h.wait(left);
